@@ -151,54 +151,73 @@ pub fn r_step(t: &R) -> Option<R> {
 
 // ---- C06: reference weak-head normaliser, full normaliser and erasure (written from the rules of the reference
 // relation: beta with an unevaluated argument, unfolding of a whole definition group, primitives on literals) ----
-pub fn r_whnf(t: &R, fuel: &mut u32) -> Option<R> {
+pub type RCtx = Vec<Option<(R, usize)>>;
+
+// delta: a let-bound context entry (definition, offset) at position p = len - 1 - i unfolds to the definition raised
+// by i + 1 - offset
+fn r_delta(ctx: &RCtx, i: usize) -> Option<R> {
+    if i >= ctx.len() { return None; }
+    match &ctx[ctx.len() - 1 - i] {
+        Some((d, off)) if *off <= i + 1 => r_shift(d, 0, (i + 1 - off) as i64),
+        _ => None,
+    }
+}
+
+pub fn r_whnf(t: &R, ctx: &RCtx, fuel: &mut u32) -> Option<R> {
     if *fuel == 0 { return None; }
     *fuel -= 1;
-    let R::Node(k, kids) = t else { return Some(t.clone()) };
+    let R::Node(k, kids) = t else {
+        let R::Var(i) = t else { return None };
+        return match r_delta(ctx, *i) { Some(u) => r_whnf(&u, ctx, fuel), None => Some(t.clone()) };
+    };
     if r_value(t) { return Some(t.clone()); }
     if *k == K::App && kids.len() == 2 {
-        let f = r_whnf(&kids[0], fuel)?;
+        let f = r_whnf(&kids[0], ctx, fuel)?;
         return match r_prim(k, &f, &kids[1]) {
-            Some(r) => r_whnf(&r, fuel),
+            Some(r) => r_whnf(&r, ctx, fuel),
             None => Some(R::Node(K::App, vec![f, kids[1].clone()])),
         };
     }
     if is_binary(k) && kids.len() == 2 {
-        let a = r_whnf(&kids[0], fuel)?;
-        let b = r_whnf(&kids[1], fuel)?;
+        let a = r_whnf(&kids[0], ctx, fuel)?;
+        let b = r_whnf(&kids[1], ctx, fuel)?;
         return Some(r_prim(k, &a, &b).unwrap_or_else(|| R::Node(k.clone(), vec![a, b])));
     }
     if *k == K::Neg && kids.len() == 1 {
-        let a = r_whnf(&kids[0], fuel)?;
+        let a = r_whnf(&kids[0], ctx, fuel)?;
         return Some(match lit_of(&a) { Some(x) => lit(-x), None => R::Node(K::Neg, vec![a]) });
     }
     if *k == K::If && kids.len() == 3 {
-        let c = r_whnf(&kids[0], fuel)?;
+        let c = r_whnf(&kids[0], ctx, fuel)?;
         return match &c {
-            R::Node(K::True, _) => r_whnf(&kids[1], fuel),
-            R::Node(K::False, _) => r_whnf(&kids[2], fuel),
+            R::Node(K::True, _) => r_whnf(&kids[1], ctx, fuel),
+            R::Node(K::False, _) => r_whnf(&kids[2], ctx, fuel),
             _ => Some(R::Node(K::If, vec![c, kids[1].clone(), kids[2].clone()])),
         };
     }
     if *k == K::Let && kids.len() % 2 == 1 {
         let m = (kids.len() - 1) / 2;
-        if m == 0 { return r_whnf(&kids[0], fuel); }
+        if m == 0 { return r_whnf(&kids[0], ctx, fuel); }
         if size_of(t) > 4000 { return None; }
-        return r_whnf(&r_let_subst(kids, m), fuel);
+        return r_whnf(&r_let_subst(kids, m), ctx, fuel);
     }
     None
 }
 
 pub fn size_of(t: &R) -> usize { match t { R::Var(_) => 1, R::Node(_, k) => 1 + k.iter().map(size_of).sum::<usize>() } }
 
-// full normal form: weak-head normalise, then normalise every child
-pub fn r_nf(t: &R, fuel: &mut u32) -> Option<R> {
-    let w = r_whnf(t, fuel)?;
+// full normal form: weak-head normalise, then normalise every child under its (plain) binders
+pub fn r_nf(t: &R, ctx: &RCtx, fuel: &mut u32) -> Option<R> {
+    let w = r_whnf(t, ctx, fuel)?;
     match &w {
         R::Var(_) => Some(w),
         R::Node(k, kids) => {
             let mut out = vec![];
-            for c in kids { out.push(r_nf(c, fuel)?); }
+            for (i, c) in kids.iter().enumerate() {
+                let mut inner = ctx.clone();
+                for _ in 0..binds(k, kids.len(), i) { inner.push(None); }
+                out.push(r_nf(c, &inner, fuel)?);
+            }
             Some(R::Node(k.clone(), out))
         }
     }
